@@ -202,6 +202,99 @@ def rule_B(ck, units):
                 ck.ob('C.barrier', key, f.where(), ok, det)
 
 
+def rule_D(ck, units):
+    """a work-sharing loop with `nowait` has no barrier at its end: what its iterations write may not be touched by the code that follows
+    in the same parallel region before the next barrier (explicit, or implied by a work-sharing construct without nowait / the end of
+    the region), except through the same owned index by the same thread's own iterations"""
+    ck.rule('D.nowait-phase', 'a shared array written inside an `omp for nowait` loop is not accessed by the statements that follow it in the parallel region before the next barrier '
+                              '(a following `omp single` / `critical` / plain statement would read elements other threads are still writing)', 3)
+    done = set()
+    for u in units.values():
+        an = Analyzer([u])
+        for f in u.funcs:
+            regs = omp.regions(f)
+            if not regs or (f.file, f.line) in done:
+                continue
+            k = 0
+            for r in regs:
+                sh = omp.Sharing(an, f, r)
+                for n in walk(r.node):
+                    if n['k'] != 'omp' or not (n['dir'].endswith('for') or n['dir'] == 'for') or not any(cl.get('c') == 'nowait' for cl in n.get('clauses', [])):
+                        continue
+                    k += 1
+                    key = '%s|%s|nowait#%d' % (f.rel(), f.q, k)
+                    # shared arrays written in the loop
+                    written = set()
+                    for w, lv, how in shared_writes(an, f, r, sh):
+                        if not any(x is w for x in walk(n)):
+                            continue
+                        root, idx = omp.lvalue_parts(lv)
+                        if root is not None and root['k'] == 'ref' and not sh.is_private(root['d']) and idx:
+                            written.add(root['d'])
+                    # statements after the loop up to the next barrier: following siblings in the enclosing block; when the block is the
+                    # body of a sequential loop inside the region, continue at the top of that body (next iteration)
+                    bad = None
+                    cur = n
+                    hops = 0
+                    while bad is None and hops < 3:
+                        par = None
+                        for a in f.ancestors(cur):
+                            par = a
+                            break
+                        if par is None or par is r.node and par['k'] != 'block':
+                            break
+                        if par['k'] != 'block':
+                            if par['k'] in ('for', 'while', 'do') and not (par is r.node):
+                                cur = par
+                                hops += 1
+                                continue
+                            if par['k'] == 'omp' and par is r.node:
+                                break
+                            cur = par
+                            hops += 1
+                            continue
+                        stmts = par['s']
+                        i0 = next(i for i, s_ in enumerate(stmts) if s_ is cur)
+                        follow = stmts[i0 + 1:]
+                        # wrap around when the block is a loop body inside the region
+                        gp = next(iter(f.ancestors(par)), None)
+                        if gp is not None and gp['k'] in ('for', 'while', 'do') and any(x is gp for x in walk(r.node)) and gp is not r.node:
+                            follow = follow + stmts[:i0]
+                        barrier = False
+                        for s_ in follow:
+                            if s_['k'] == 'omp':
+                                d_ = s_['dir']
+                                nw = any(cl.get('c') == 'nowait' for cl in s_.get('clauses', []))
+                                touches = [x for x in walk(s_) if x['k'] == 'ref' and x['d'] in written]
+                                if d_ == 'barrier':
+                                    barrier = True
+                                    break
+                                if touches and d_ in ('single', 'master', 'critical', 'sections') :
+                                    bad = (s_, touches[0])
+                                    break
+                                if (d_.endswith('for') or d_ in ('single', 'sections')) and not nw:
+                                    if touches and not d_.endswith('for'):
+                                        bad = (s_, touches[0])
+                                    barrier = True
+                                    break
+                            else:
+                                touches = [x for x in walk(s_) if x['k'] == 'ref' and x['d'] in written]
+                                if touches:
+                                    bad = (s_, touches[0])
+                                    break
+                        if bad or barrier:
+                            break
+                        cur = par
+                        hops += 1
+                        if par is r.node or any(par is x for x in [r.node.get('b')]):
+                            break
+                    ck.ob('D.nowait-phase', key, f.where(n), bad is None,
+                          '' if bad is None else 'in %s: `%s` is written by the `omp for nowait` loop at %s and accessed at %s with no barrier in between: a thread that has finished its share '
+                                                 'of the loop sees elements other threads are still writing' % (f.full[:80], bad[1]['n'], f.where(n), f.where(bad[0])), trivial=not written)
+            if k:
+                done.add((f.file, f.line))
+
+
 def all_levels_scheduled(f):
     """the loop that creates the per-thread tasks runs over every level 0 .. nlev-1 (a row of a skipped level is never swept)"""
     pushes = [c for c in f.calls() if c.get('m') == 'push_back' and c.get('obj') is not None and 'tasks[' in show(c['obj'])]
@@ -326,6 +419,7 @@ def main(tier):
     ck.add_units(units, specs)
     rule_A(ck, units, 60 if tier == 'quick' else 90)
     rule_B(ck, units)
+    rule_D(ck, units)
     # "every interleaving yields the serial sweep's result" also needs the level-scheduled row kernel to be the serial one (shared with C06)
     import c06
     c06.rule_gs(ck, {k: v for k, v in units.items() if k == 'rt_builtin'})
